@@ -15,6 +15,8 @@ def _fact_of_rv(body, rv, facts):
                 return ('bool', bool(v))
             if op.get('ty') == 'bool' and op.get('s') in ('true', 'false', 'const true', 'const false'):
                 return ('bool', 'true' in op['s'])
+            if isinstance(v, int) and not isinstance(v, bool):
+                return ('int', v)
             return None
         q = op_place(op)
         if q and place_is_local(q):
